@@ -274,7 +274,21 @@ func (e *Engine) merge(states []*State) *State {
 			keys[k] = true
 		}
 	}
+	klist := make([]cellKey, 0, len(keys))
 	for k := range keys {
+		klist = append(klist, k)
+	}
+	sort.Slice(klist, func(i, j int) bool {
+		a, b := klist[i], klist[j]
+		if a.frame != b.frame {
+			return a.frame < b.frame
+		}
+		if a.alloc.Pos() != b.alloc.Pos() {
+			return a.alloc.Pos() < b.alloc.Pos()
+		}
+		return a.alloc.Name() < b.alloc.Name()
+	})
+	for _, k := range klist {
 		var ps []T
 		var vs []Val
 		for i, s := range live {
